@@ -421,10 +421,11 @@ Definition clauses : list (key3 * body) := [
   (("Array", "get", "数目"), b_array (fun _ xs _ => keep (OVal (VNum (num_of_Z (zlen xs)))) (VList xs)));
   (("Array", "get", "长度"), b_array (fun _ xs _ => keep (OVal (VNum (num_of_Z (zlen xs)))) (VList xs)));
   (("Array", "get", "逆序"), b_array (fun _ xs _ => keep (OVal (VList (rev xs))) (VList xs)));
+  (* SetProperty(name, value) has exactly one value by its Go type: hd *)
   (("Array", "set", "首项"), b_array (fun _ xs args =>
-      with_present args 0 (fun v => (OVal VNull, Some (VList (match xs with [] => [v] | _ :: r => v :: r end))))));
+      let v := hd VNull args in (OVal VNull, Some (VList (match xs with [] => [v] | _ :: r => v :: r end)))));
   (("Array", "set", "末项"), b_array (fun _ xs args =>
-      with_present args 0 (fun v => (OVal VNull, Some (VList (match xs with [] => [v] | _ => removelast xs ++ [v] end))))));
+      let v := hd VNull args in (OVal VNull, Some (VList (match xs with [] => [v] | _ => removelast xs ++ [v] end)))));
   (("Array", "method", "新增"), b_array (fun vr xs args =>
       with_present args 0 (fun x => with_present args 1 (fun p => with_num p (fun f =>
         list_result (insert_array_value vr xs (go_int f) x))))));
